@@ -157,7 +157,8 @@ let () =
       end
     | _ -> Diff "malformed line");
   register "W18" (fun i o -> match i, o with
-    | _, ["panic"; _; _; _] -> Viol "Reset/GetWriter panicked"
+    | _, ["bothpanic"; _; _; _] -> Pass false   (* Reset and the fresh constructor both refuse the too-small buffer *)
+    | _, ["panic"; _; _; _] -> Viol "Reset/GetWriter panicked where a fresh writer would not"
     | [cfg; h1; fail; mode; st2op2; h2], [oa; la; ob; lb] ->
       let a = List.map obs_of_tok (split ',' oa) and b = List.map obs_of_tok (split ',' ob) in
       let la = bytes_list_of_tok la and lb = bytes_list_of_tok lb in
